@@ -68,7 +68,7 @@ import math  # noqa: E402
 import struct  # noqa: E402
 
 
-def _check(T, v, local_step, nearest=False):
+def _check(T, v, local_step, nearest=False, strict_range=False):
     """nearest=True (codecs that round to the nearest raw value): the error is strictly below one step - so
     an exactly representable input comes back exactly, not one step off - and nothing further than half a
     step outside the range is accepted."""
@@ -80,6 +80,9 @@ def _check(T, v, local_step, nearest=False):
         return
     assert isinstance(p, DPTArray) and len(p.value) == T.payload_length, (T.__name__, v)
     assert all(isinstance(o, int) and 0 <= o <= 255 for o in p.value), (T.__name__, v, p.value, "not octets")
+    if strict_range:
+        # codecs that test the value itself against the declared range: nothing outside it is encoded at all
+        assert lo <= v <= hi, (T.__name__, v, "outside the declared range but encoded")
     d = T.from_knx(p)
     st = local_step(p)
     if nearest:
@@ -152,7 +155,7 @@ def _percent_cases(tier, T):
 @standin("C09", cases=_percent_cases, family=lambda: [dict(T=c) for c in numeric_classes() if c.__name__ in ("DPTScaling", "DPTAngle")], kind="enum-native", exhaustive=False, bound="DPT 5.001 / 5.003: 2*10^4 (quick) / 4*10^5 (thorough) equidistant values across and slightly beyond the declared range")
 def one_octet_scaled(T, v):
     # representable values are round(k/255*range): neighbouring ones are at most ceil(range/255) apart
-    _check(T, v, lambda p: max(1.0, math.ceil((T.value_max - T.value_min) / 255)))
+    _check(T, v, lambda p: max(1.0, math.ceil((T.value_max - T.value_min) / 255)), strict_range=True)
 
 
 def _f16_step(p):
